@@ -60,9 +60,10 @@ ENTITIES = {
     "LEN_B": (["UNIT_B"], [("lname", STR, False, False)]),
     "CARRIER": ([], [("load", ref("POINT", "DPOINT"), False, False), ("note", STR, False, False)]),
     "DCARRIER": (["CARRIER"], [("extra", INT, False, False)]),
+    "LCARRIER": (["CARRIER"], []),
 }
 # attributes redeclared in a subtype with a narrower type (not derived): (entity, attr) -> the type instances of that entity need
-REDECLARED_IN = {("DCARRIER", "load"): ref("DPOINT")}
+REDECLARED_IN = {("DCARRIER", "load"): ref("DPOINT"), ("LCARRIER", "load"): ref("DPOINT")}
 ABSTRACT = {"BASE"}
 # attributes redeclared as DERIVE in a subtype: (entity, supertype attr) -> written as '*'
 DERIVED_IN = {("DPOINT", "tag"), ("SI_B", "dims")}
